@@ -191,8 +191,77 @@ UF = {
 
 
 # ----------------------------------------------------------------------------------------
+class ViewData:
+    """The flat data of a tensor that is a numpy VIEW: element i lives at root[idx[i]] of the base array's list, so a
+    write through the view is seen by the base (and by every other view of it) and vice versa.  Behaves like the flat
+    list `Tensor.data` otherwise is (indexing, slicing, iteration, concatenation give plain lists/values)."""
+
+    __slots__ = ("root", "idx")
+
+    def __init__(self, root, idx):
+        if isinstance(root, ViewData):
+            root, idx = root.root, [root.idx[i] for i in idx]
+        self.root, self.idx = root, list(idx)
+
+    def __len__(self):
+        return len(self.idx)
+
+    def __iter__(self):
+        r = self.root
+        return iter([r[i] for i in self.idx])
+
+    def __getitem__(self, k):
+        if isinstance(k, slice):
+            return [self.root[i] for i in self.idx[k]]
+        return self.root[self.idx[k]]
+
+    def __setitem__(self, k, v):
+        if isinstance(k, slice):
+            tgt = self.idx[k]
+            vals = list(v)
+            if len(vals) != len(tgt):
+                raise ValueError("view data cannot change its length")
+            for i, x in zip(tgt, vals):
+                self.root[i] = x
+        else:
+            self.root[self.idx[k]] = v
+
+    def __add__(self, other):
+        return list(self) + list(other)
+
+    def __radd__(self, other):
+        return list(other) + list(self)
+
+    def __eq__(self, other):
+        return list(self) == list(other)
+
+    def __ne__(self, other):
+        return not self.__eq__(other)
+
+    __hash__ = None
+
+    def __contains__(self, x):
+        return x in list(self)
+
+    def __repr__(self):
+        return f"view{list(self)!r}"
+
+    def copy(self):
+        return list(self)
+
+    def index(self, x):
+        return list(self).index(x)
+
+    def count(self, x):
+        return list(self).count(x)
+
+    def contiguous(self):
+        return all(b == a + 1 for a, b in zip(self.idx, self.idx[1:]))
+
+
+
 class Tensor:
-    """Fixed-shape array of scalars (A4).  data is a flat row-major list."""
+    """Fixed-shape array of scalars (A4).  data is a flat row-major list (a ViewData for numpy views)."""
 
     __slots__ = ("shape", "data", "dtype")
 
@@ -216,6 +285,26 @@ class Tensor:
 
     def copy(self):
         return Tensor(self.shape, list(self.data), self.dtype)
+
+    @staticmethod
+    def view(base, offsets, shape):
+        """the array numpy returns for basic indexing / transposition / reshaping of `base`: it SHARES the elements
+        (offsets = positions in base.data, row-major for `shape`)"""
+        t = Tensor.__new__(Tensor)
+        t.shape, t.dtype = tuple(shape), base.dtype
+        t.data = ViewData(base.data, offsets)
+        n = 1
+        for s_ in t.shape:
+            n *= s_
+        if n != len(t.data):
+            raise Unsupported(f"view shape {shape} does not match {len(t.data)} elements")
+        return t
+
+    def is_view(self):
+        return isinstance(self.data, ViewData)
+
+    def is_contiguous(self):
+        return not isinstance(self.data, ViewData) or self.data.contiguous()
 
     def __repr__(self):
         return f"Tensor{self.shape}{self.data}"
